@@ -132,6 +132,7 @@ pub fn generate(family: &str, rng: &mut Rng) -> Case {
         "C08" => gen_registry(rng),
         "C16" => gen_children(rng),
         "C09" => gen_broker(rng),
+        "SMALL" => gen_small(rng),
         _ => gen_actor(&profile(family), rng),
     }
 }
@@ -881,4 +882,240 @@ fn gen_actor(p: &Profile, rng: &mut Rng) -> Case {
 fn pick_kind(owned: &[(usize, u8)], kinds: &[u8], rng: &mut Rng) -> Option<(usize, u8)> {
     let c: Vec<(usize, u8)> = owned.iter().filter(|x| kinds.contains(&x.1)).cloned().collect();
     if c.is_empty() { None } else { Some(*rng.pick(&c)) }
+}
+
+/// SMALL: a uniform draw from a small, systematically structured space of single-actor programs - every
+/// strategy x mailbox x fault kind, one client with 1-4 operations from a fixed alphabet, an optional second
+/// client with one of a few two-step programs, and an optional finale in which everybody lets go of everything.
+/// The weighted profiles above reach combinations such as "restart, then drop the last handle" or "a later
+/// start fails, restart, await" only by luck; here each adjacent pair of operations has probability ~1/250.
+fn gen_small(rng: &mut Rng) -> Case {
+    let mut tags = vec![];
+    let strat = *rng.pick(&[Strat::Only, Strat::Recreate, Strat::Non]);
+    let cap = *rng.pick(&[None, None, Some(0), Some(1), Some(2)]);
+    let owning = rng.chance(1, 3);
+    let mut beh = Behaviour::default();
+    let mut st0 = vec![];
+    let mut next_t = 0usize;
+    if rng.chance(1, 4) {
+        st0.push(Act::Work(1));
+    }
+    if rng.chance(1, 4) {
+        next_t += 1;
+        let d = 1 + rng.below(4) as u64;
+        st0.push(match rng.below(4) {
+            0 => Act::Interval { t: next_t, d },
+            1 => Act::IntervalWith { t: next_t, d },
+            2 => Act::DelayedSend { t: next_t, d },
+            _ => Act::DelayedExec { t: next_t, d },
+        });
+    }
+    beh.started = vec![st0.clone()];
+    if rng.chance(1, 5) {
+        beh.stopped.push(Act::Work(1));
+    }
+    let mut timeout = None;
+    let mut fail = false;
+    let mut slow_first = false;
+    let mut panic_first = false;
+    let fault_tag = match rng.below(9) {
+        0 => {
+            beh.started = vec![vec![Act::Fail]];
+            "start_err"
+        }
+        1 => {
+            beh.stopped.push(Act::Panic);
+            "stopped_panic"
+        }
+        2 => {
+            beh.started = vec![st0.clone(), vec![Act::Fail]];
+            "restart_err"
+        }
+        3 => {
+            panic_first = true;
+            "handler_panic"
+        }
+        4 => {
+            timeout = Some(2);
+            fail = true;
+            slow_first = true;
+            "timeout_fail"
+        }
+        5 => {
+            timeout = Some(2);
+            slow_first = true;
+            "timeout"
+        }
+        _ => "none",
+    };
+    let spec = SpawnSpec { k: 0, cap, strat, timeout, fail, stream: false, owning, plain_entry: false, behaviour: beh };
+    tags.push(format!("cap={}", cap.map(|c| c.to_string()).unwrap_or("none".into())));
+    tags.push(format!("strat={:?}", strat));
+    tags.push(format!("timeout={}", timeout.map(|c| c.to_string()).unwrap_or("none".into())));
+    tags.push("stream=0".to_string());
+    tags.push(format!("owning={}", owning as u8));
+    tags.push(format!("fault={}", fault_tag));
+    let mut setup = vec![Op::Spawn { a: 0, spec, h: 0 }];
+    // handles: 0 = what spawn returned; 1 = a plain Addr for client A; 2 = a plain Addr for client B
+    setup.push(if owning { Op::ToAddr { h: 0, h2: 1 } } else { Op::Clone { h: 0, h2: 1 } });
+    let two = rng.chance(1, 2);
+    if two {
+        setup.push(Op::Clone { h: 1, h2: 2 });
+    }
+    let keep_root = rng.chance(1, 2);
+    if !keep_root {
+        setup.push(Op::Drop { h: 0 });
+    }
+    tags.push(format!("clients={}", 1 + two as usize));
+    tags.push(format!("droproot={}", !keep_root as u8));
+    let mut next_m = 0usize;
+    let mut next_h = 3usize;
+    let mut first_msg = true;
+    let script_for = |first: &mut bool, base: Vec<Act>| -> Vec<Act> {
+        let mut s = base;
+        if *first {
+            *first = false;
+            if slow_first {
+                s.push(Act::Work(5));
+            }
+            if panic_first {
+                s.push(Act::Panic);
+            }
+        }
+        s
+    };
+    let mut a_ops: Vec<Op> = vec![];
+    let mut a_has = true; // client A still holds handle 1
+    let n = 1 + rng.below(4);
+    for _ in 0..n {
+        if !a_has {
+            break;
+        }
+        match rng.below(17) {
+            0 => {
+                next_m += 1;
+                a_ops.push(Op::Send { h: 1, m: next_m, script: script_for(&mut first_msg, vec![]) });
+            }
+            1 => {
+                next_m += 1;
+                a_ops.push(Op::Send { h: 1, m: next_m, script: script_for(&mut first_msg, vec![Act::Work(3)]) });
+            }
+            2 => {
+                next_m += 1;
+                a_ops.push(Op::Call { h: 1, m: next_m, script: script_for(&mut first_msg, vec![]) });
+            }
+            3 => {
+                next_m += 1;
+                a_ops.push(Op::Call { h: 1, m: next_m, script: script_for(&mut first_msg, vec![Act::Work(2)]) });
+            }
+            4 => {
+                next_m += 1;
+                a_ops.push(Op::CallCancel { h: 1, m: next_m, script: script_for(&mut first_msg, vec![Act::Work(1)]), after: rng.below(3) as u64 });
+            }
+            5 => a_ops.push(Op::Ping { h: 1 }),
+            6 => a_ops.push(Op::Stop { h: 1 }),
+            7 => a_ops.push(Op::Restart { h: 1 }),
+            8 => a_ops.push(Op::Await { h: 1 }),
+            9 => {
+                a_ops.push(Op::Halt { h: 1 });
+                a_has = false;
+            }
+            10 => {
+                a_ops.push(Op::Drop { h: 1 });
+                a_has = false;
+            }
+            11 => a_ops.push(Op::Sleep(1 + rng.below(3) as u64)),
+            12 => {
+                next_m += 1;
+                a_ops.push(Op::Send { h: 1, m: next_m, script: script_for(&mut first_msg, vec![Act::CtxStop]) });
+            }
+            13 => {
+                next_m += 1;
+                a_ops.push(Op::Send { h: 1, m: next_m, script: script_for(&mut first_msg, vec![Act::CtxRestart]) });
+            }
+            14 => a_ops.push(if rng.chance(1, 2) { Op::Stopped { h: 1 } } else { Op::Running { h: 1 } }),
+            15 => {
+                // a weak handle, upgraded later
+                let hw = next_h;
+                let hu = next_h + 1;
+                next_h += 2;
+                a_ops.push(match rng.below(3) {
+                    0 => Op::Downgrade { h: 1, h2: hw },
+                    1 => Op::MkWeakSender { h: 1, h2: hw },
+                    _ => Op::MkWeakCaller { h: 1, h2: hw },
+                });
+                a_ops.push(Op::Sleep(1 + rng.below(3) as u64));
+                a_ops.push(Op::Upgrade { h: hw, h2: hu });
+                a_ops.push(Op::Drop { h: hu });
+            }
+            _ => {
+                if owning && keep_root {
+                    a_ops.push(match rng.below(3) {
+                        0 => Op::Join { h: 0 },
+                        1 => Op::JoinPark { h: 0 },
+                        _ => Op::JoinDiscard { h: 0 },
+                    });
+                } else {
+                    a_ops.push(Op::Yield);
+                }
+            }
+        }
+    }
+    let mut b_ops: Vec<Op> = vec![];
+    let mut b_has = two;
+    if two {
+        match rng.below(10) {
+            0 => {}
+            1 => {
+                next_m += 1;
+                b_ops.push(Op::Send { h: 2, m: next_m, script: script_for(&mut first_msg, vec![]) });
+            }
+            2 => b_ops.push(Op::Await { h: 2 }),
+            3 => {
+                next_m += 1;
+                b_ops.push(Op::Send { h: 2, m: next_m, script: script_for(&mut first_msg, vec![]) });
+                b_ops.push(Op::Drop { h: 2 });
+                b_has = false;
+            }
+            4 => b_ops.push(Op::Restart { h: 2 }),
+            5 => b_ops.push(Op::Stop { h: 2 }),
+            6 => {
+                next_m += 1;
+                b_ops.push(Op::Call { h: 2, m: next_m, script: script_for(&mut first_msg, vec![Act::Work(1)]) });
+            }
+            7 => {
+                b_ops.push(Op::Sleep(3));
+                next_m += 1;
+                b_ops.push(Op::Send { h: 2, m: next_m, script: script_for(&mut first_msg, vec![]) });
+            }
+            8 => {
+                b_ops.push(Op::Drop { h: 2 });
+                b_has = false;
+            }
+            _ => {
+                b_ops.push(Op::Restart { h: 2 });
+                b_ops.push(Op::Await { h: 2 });
+            }
+        }
+    }
+    let finale = rng.chance(1, 2);
+    if finale {
+        if a_has {
+            a_ops.push(Op::Drop { h: 1 });
+        }
+        if keep_root {
+            a_ops.push(Op::Drop { h: 0 });
+        }
+        if b_has {
+            b_ops.push(Op::Drop { h: 2 });
+        }
+    }
+    tags.push(format!("finale={}", finale as u8));
+    let mut clients = vec![a_ops];
+    if two {
+        clients.push(b_ops);
+    }
+    let prompt = rng.chance(1, 2);
+    tags.push(format!("prompt={}", prompt as u8));
+    Case { program: Program { setup, clients }, sched: sched(rng), prompt, horizon: 100, cancel: None, tags }
 }
